@@ -15,7 +15,7 @@ RULE = ("42 classes x offering tables x argument tuples with at most k deviation
         "block commands (products above 2^22 bytes skipped) ; ATA PASS-THROUGH 12/16: full product t_length(4) x byte_block x t_type x t_dir x "
         "data given/omitted x blocksize {0,512,4096} x extra_tl {None,3} x count/features {0,1,2,max8,(max16)} ; MODE SELECT / PR OUT / EXTENDED COPY "
         "with parameter dictionaries of several sizes. Every constructed command is executed on an SG_IO and an iSCSI device (stand-ins), which take "
-        "len() of both buffers; the iSCSI task direction/length is compared with the same numbers; afterwards the result is decoded (unmarshall) and both buffers must still be the same objects of the same length; 12 data-in facade methods on both transports answered with a well-formed response and 8 truncated / garbage ones (a length field announcing more than was transferred): every command reaching the target and the command handed back satisfy the same relation. Non-trivial = a deviation or a non-default "
+        "len() of both buffers; the iSCSI task direction/length is compared with the same numbers; afterwards the result is decoded (unmarshall) and both buffers must still be the same objects of the same length; 12 data-in facade methods on both transports answered with a well-formed response and 8 truncated / garbage ones (a length field announcing more than was transferred): every command reaching the target and the command handed back satisfy the same relation; two facades with block sizes 512 / 4096 alive at once (3 creation orders), READ/WRITE(10,12,16) on each in turn. Non-trivial = a deviation or a non-default "
         "block size; distinct = distinct (class, table, tuple, blocksize).")
 ASSUMPTIONS = [
     "expected lengths are computed from the CDB bytes with vf/spec/cdb.py: ALLOCATION LENGTH, TRANSFER LENGTH x block size, PARAMETER LIST LENGTH, SAT transfer rules (T_LENGTH selects FEATURES/COUNT/TPSIU, BYT_BLOK/T_TYPE select 1/512/sector size, T_DIR the direction)",
@@ -41,6 +41,7 @@ def partitions(tier):
         for st, key in c["tables"]:
             parts.append([name, st, key, None])
     parts += [["facade", tr, m] for tr in ("sgio", "iscsi") for m in FACADE_IN]
+    parts += [["two", tr] for tr in ("sgio", "iscsi")]
     return parts
 
 
@@ -283,13 +284,59 @@ def run_facade(case, obs=None):
     return out
 
 
+def run_two(case, obs=None):
+    """two facades with different block sizes alive at once: each builds its READ / WRITE commands from its own"""
+    _, tr, m, order = case
+    out = []
+    ra, rb = harness.Rig(tr, 0x00), harness.Rig(tr, 0x00, blocksize=4096)
+    try:
+        if order == 0:
+            sa, sb = ra.facade(512), rb.facade(4096)
+        elif order == 1:
+            sb, sa = rb.facade(4096), ra.facade(512)
+        else:
+            sa, sb = ra.facade(512), rb.facade(512)
+            sb.blocksize = 4096
+        name = {"read10": "Read10", "read12": "Read12", "read16": "Read16", "write10": "Write10", "write12": "Write12", "write16": "Write16"}[m]
+        for who, bs, label in ((sa, 512, "A"), (sb, 4096, "B"), (sa, 512, "A again")):
+            try:
+                cmd = getattr(who, m)(3, 2) if m.startswith("read") else getattr(who, m)(3, 2, bytearray(2 * bs))
+            except Exception as e:   # noqa: BLE001
+                out.append(("two/raises/%s" % m, "%s on facade %s (block size %d) raised %s: %s" % (m, label, bs, type(e).__name__, e)))
+                continue
+            v, _, _ = judge(name, cmd, {"blocksize": bs}, "%s on facade %s (block size %d) while a facade with another block size exists" % (m, label, bs))
+            out += [("two/" + k, w) for k, w in v]
+            if who.blocksize != bs:
+                out.append(("two/blocksize", "facade %s reads back block size %r, configured %d" % (label, who.blocksize, bs)))
+    finally:
+        ra.close()
+        rb.close()
+    return out
+
+
 def replay(case):
+    if case[0] == "two":
+        return run_two(case)
     return run_facade(case) if case[0] == "facade" else run_case(case)
 
 
 def run_partition(part, tier, seed):
     ensure_rigs()
     acc = Acc(seed)
+    if part[0] == "two":
+        for m in ("read10", "read12", "read16", "write10", "write12", "write16"):
+            for order in (0, 1, 2):
+                case = ["two", part[1], m, order]
+                acc.case(case, nontrivial=True, key=repr(case))
+                try:
+                    v = run_two(case)
+                except Exception:
+                    import traceback
+                    v = [("harness_error", traceback.format_exc()[-600:])]
+                for kk, w in v:
+                    acc.violation(kk, w, case)
+                acc.outcome((repr(case), tuple(x for x, _ in v)))
+        return acc
     if part[0] == "facade":
         from vf import facade as F
         _, tr, method = part
